@@ -92,6 +92,45 @@ def check_cache_coherence(ctx, rule, m):
     ctx.check(writers >= 3, rule, "FixedWidthBinning:writers", f"{writers} methods write grid fields", f"only {writers} grid writers found", FW.where)
 
 
+def check_growth_reported(ctx, rule, m):
+    """_force_bin_existence_single: a path that certainly enlarges the grid (constant increment / plain store of a grid field)
+    returns a map, never None - otherwise the histogram keeps arrays of the old length over a longer binning."""
+    FW = m.cls("FixedWidthBinning")
+    fs = FW.methods.get("_force_bin_existence_single")
+    if fs is None:
+        raise AnalysisError("FixedWidthBinning._force_bin_existence_single not found")
+    ctx.saw(fs)
+    bad = []
+    n = 0
+    for path in function_paths(fs.node):
+        if end_kind(path) != "return" or not consistent(path):
+            continue
+        certain = []
+        for s in path:
+            if s[0] == "stmt":
+                st = s[1]
+                for w in writes_of(st):
+                    if w.root == "self" and w.attr in ("_bin_count", "_times_min"):
+                        if isinstance(st, ast.AugAssign) and isinstance(const_value(st.value), (int, float)) and const_value(st.value) != 0:
+                            certain.append(U(st))
+                        elif isinstance(st, ast.Assign):
+                            certain.append(U(st))
+        if not certain:
+            continue
+        bumped = {s[1].target.id for s in path if s[0] == "stmt" and isinstance(s[1], ast.AugAssign) and isinstance(s[1].target, ast.Name)
+                  and isinstance(s[1].op, ast.Add) and isinstance(const_value(s[1].value), int) and const_value(s[1].value) > 0}
+        infeasible = any(s[0] == "cond" and not s[2] and isinstance(s[1], ast.BoolOp) and isinstance(s[1].op, ast.Or)
+                         and any(isinstance(v, ast.Name) and v.id in bumped for v in s[1].values) for s in path)
+        if infeasible:
+            continue  # the growth counter was incremented on this path, so the `a or b` guard cannot be false
+        n += 1
+        rv = path[-1][2].value
+        if rv is None or U(rv) == "None":
+            bad.append(f"`{certain[0]}` enlarges the grid but the path returns None (no bin map)")
+    ctx.check(n > 0 and not bad, rule, "_force_bin_existence_single:growth-reported", f"{n} certainly-growing path(s), each returns a map",
+              " ; ".join(sorted(set(bad))) or "no certainly-growing path found", fs.where)
+
+
 def run(ctx):
     m = ctx.model
     FW = m.cls("FixedWidthBinning")
@@ -220,6 +259,7 @@ def run(ctx):
     ok_branch = f"{v} < self.numpy_bins[0]" in conds and f"{v} >= self.numpy_bins[-1]" in conds
     ctx.check(ok_branch, "C04.c", "_force_bin_existence_single:branches", "grow left iff v < first edge; right iff v >= last edge",
               f"growth conditions are {sorted(conds)}", fs.where)
+    check_growth_reported(ctx, "C04.c", m)
     fb = FW.methods.get("_force_bin_existence")
     ctx.saw(fb)
     ok_batch = False
@@ -263,6 +303,9 @@ def run(ctx):
     okd = any("np.min(data)" in c and "np.max(data)" in c and "includes_right_edge=includes_right_edge" in c for c in calls)
     ctx.check(okr, "C04.e", "fixed_width_binning:range", "bins forced for range[0] and range[1] (right end inclusive)", f"range growth calls: {calls}", fw.where)
     ctx.check(okd, "C04.e", "fixed_width_binning:data", "bins forced for min(data) and max(data) with includes_right_edge forwarded", f"data growth calls: {calls}", fw.where)
+
+    from rules import c07
+    c07.check_pretty_factory(ctx, "C04.e", m)
 
     # ---- C04.d the lookup that follows the growth uses the kernel's convention (shared with C03.c) -----------------
     ctx.rule("C04.d", "after growth fill() looks the value up with the same interval convention as the kernels", 8)
